@@ -4,7 +4,7 @@ package wire
 //vx:entry Harness_C08_long_header Harness_C08_short_header Harness_C08_header_misc
 //vx:entry-thorough Harness_C08_long_header_roundtrip
 //vx:param quick n=48 nrt=20
-//vx:param thorough n=80 nrt=28
+//vx:param thorough n=80 nrt=20
 //vx:reach Harness_C08_long_header_roundtrip C08.hdr.roundtrip
 //vx:reach Harness_C08_long_header C08.hdr.parsed C08.hdr.rejected C08.hdr.extended C08.hdr.unsupported-version C08.hdr.initial-with-token
 //vx:reach Harness_C08_short_header C08.short.parsed C08.short.rejected
